@@ -49,7 +49,12 @@ def c17_1(ck, prog):
                '_dbus_connection_detach_pending_call_and_unlock',
                'connection_timeout_and_complete_all_pending_calls_unlocked'}
     for f, cs in ops.items():
-        if f in allowed:
+        absorbed = None
+        if f not in allowed:
+            for g in prog.by_name.get(f, []):
+                for op in cs:
+                    absorbed = absorbed or lib.absorbed_from(prog, g, allowed, op_callee=op)
+        if f in allowed or absorbed:
             r.ok('pending_replies-writer:%s' % f, sorted(cs))
         else:
             r.violation('pending_replies-writer:%s' % f, f, CONN, None, '%s edits connection->pending_replies' % f)
